@@ -62,13 +62,35 @@ def undecodable_payload(R):
     return y.to_bytes(32, "little")
 
 
-def inbound_menu(inst, side, w, x, all_elements=False):
-    """[(kind, delivered bytes)] - the inbound alphabet of C07/C08 for the session (inst, side, w, x)"""
+_FACTS = {}
+
+
+def session_facts(inst, side, pw, ids, x):
+    """what the library ACTUALLY does for the session the harness asks for with scalar x: (scalar reported through serialize(),
+    start() message).  The mapping entropy -> scalar is C11's subject; every other check builds its oracle on the observed scalar
+    and the observed own message, so that a change of the sampler is not mis-reported under another property."""
+    key = (inst.name, id(inst.params), side, pw, tuple(ids or ()), x)
+    if key not in _FACTS:
+        s = inst.new(side, pw, ids, x)
+        m = T.observe(s.start)
+        xo = T.read_scalar(inst, s) if m[0] == "ok" else None
+        if xo is None:
+            xo = x
+        _FACTS[key] = (xo, m[1] if m[0] == "ok" else None)
+        if len(_FACTS) > 200000:
+            _FACTS.clear()
+    return _FACTS[key]
+
+
+def inbound_menu(inst, side, w, x, all_elements=False, own=None):
+    """[(kind, delivered bytes)] - the inbound alphabet of C07/C08 for the session (inst, side, w, x); `own` = the message the
+    instance really sent (defaults to the reference message)"""
     from ..ref import spake2 as RS
     R, rp, q = inst.ref, inst.rp, inst.q
     peer = PEER[side]
     lab = peer.encode()
-    own = RS.message(rp, side, w, x)
+    if own is None:
+        own = RS.message(rp, side, w, x)
     y = (x + 1) % q
     valid = RS.message(rp, peer, w, y)
     if valid[1:] == own[1:] or (R.refuses_identity and valid[1:] == R.enc(R.identity)):
